@@ -1079,6 +1079,26 @@ func (p *parser) parseClauses(fc *FuncContract) error {
 			fc.Clauses = append(fc.Clauses, &Clause{Kind: kind, Loop: k, E: e, Props: props, Label: label, Text: p.textSince(start)})
 		case "at":
 			p.next()
+			if p.isID("store") { // at store T.f assert [label] expr
+				p.next()
+				tn := p.next().s
+				if err := p.expectOp("."); err != nil {
+					return err
+				}
+				fn := p.next().s
+				if !p.isID("assert") {
+					return p.errf("expected assert after at store T.f")
+				}
+				p.next()
+				props, lab := p.parseClauseTag()
+				start := p.peek().pos
+				e, err := p.parseExpr(0)
+				if err != nil {
+					return err
+				}
+				fc.Clauses = append(fc.Clauses, &Clause{Kind: "storeassert", Call: tn + "." + fn, E: e, Props: props, Label: lab, Text: p.textSince(start)})
+				continue
+			}
 			if !p.isID("call") {
 				return p.errf("expected 'call' after 'at'")
 			}
